@@ -170,10 +170,13 @@ class OneOf(Shape):
 class Obj(Shape):
     """an instance of a real class built field by field (no constructor run)"""
 
-    def __init__(self, cls, slots=None, idict=None, valid=None, alias=None):
+    def __init__(self, cls, slots=None, idict=None, valid=None, alias=None, open_dict=False,
+                 excluded=()):
         self.cls, self.slots, self.idict = cls, slots or {}, idict
         self.valid = valid
         self.alias = alias or {}      # idict name -> (idict name, index): same object, aliased
+        self.open_dict = open_dict    # the instance dict has further, unknown entries
+        self.excluded = tuple(excluded)
 
     def make(self, ctx, name):
         has_dict = ctx.has_instance_dict(self.cls)
@@ -185,6 +188,9 @@ class Obj(Shape):
                 o.idict[k] = sh.make(ctx, "%s.%s" % (name, k))
         for k, (src, idx) in self.alias.items():
             o.idict[k] = o.idict[src][idx] if idx is not None else o.idict[src]
+        if self.open_dict:
+            from .seqs import SymDict
+            o.idict = SymDict(o.idict, rest=True, excluded=self.excluded)
         return o
 
     def concretize(self, vals, name, made):
@@ -233,7 +239,6 @@ class Seq(Shape):
         ctx.inputs[name + ".len"] = z3.Length(t)
         for i in range(self.replay_max):
             self.elem.register_inputs(ctx, "%s[%d]" % (name, i), t[i])
-        ctx.seq_assume_valid(t, self.elem)
         return SSeq(t, self.elem)
 
     def concretize(self, vals, name, made):
